@@ -29,11 +29,22 @@ func VpHTxnSize() {
 
 	txn := db.newTransaction(true, true)
 	n := 1 + vpChoose("entries", vpParam("txnsize.entries", 2))
+	// Keys come from a small alphabet so that a later write can REPLACE an earlier pending one
+	// (the size accounting of a replaced entry is part of the claim); value lengths lie on both
+	// sides of small thresholds, 100 bytes is far above the 12-byte value pointer that is
+	// charged for a value at or above the threshold.
+	vlens := []int{0, 7, 14, 100}
+	distinct := map[byte]bool{}
 	for i := 0; i < n; i++ {
-		kl := 1 + vpChoose("klen", 2)
-		vl := vpChoose("vlen", 3) * 7 // 0, 7, 14: on both sides of small thresholds
-		key := append([]byte{byte('a' + i)}, make([]byte, kl-1)...)
+		kc := byte('a' + vpChoose("key", i+1))
+		kl := 1 + int(kc-'a')%2 // key length is a function of the key: a=1, b=2, c=1
+		vl := vlens[vpChoose("vlen", len(vlens))]
+		key := append([]byte{kc}, make([]byte, kl-1)...)
 		val := make([]byte, vl)
+		if distinct[kc] {
+			vpCover("txnsize.overwrite")
+		}
+		distinct[kc] = true
 		err := txn.SetEntry(NewEntry(key, val))
 		if err != nil {
 			vpCover("txnsize.modify-rejected")
@@ -52,8 +63,8 @@ func VpHTxnSize() {
 	vpAssertKnown(err != ErrTxnTooBig, "C28:txnsize.accepted-writes-fit-at-commit", true, "C28-fin-marker-underestimated")
 	if err == nil {
 		req := <-db.writeCh
-		vpAssert(len(req.Entries) == n+1, "C03,C28:txnsize.request-has-all-entries-and-marker")
-		last := req.Entries[n]
+		vpAssert(len(req.Entries) == len(distinct)+1, "C03,C28:txnsize.request-has-all-entries-and-marker")
+		last := req.Entries[len(distinct)]
 		vpAssert(last.meta&bitFinTxn > 0 && bytes.HasPrefix(last.Key, txnKey), "C03:txnsize.marker-last")
 	}
 }
